@@ -116,7 +116,7 @@ class PolarsAddMissingColumns(Contract):
     target = f"{DFP}.add_missing_columns"
     raises = (SchemaError,)
     check_frame = False
-    split = {"layout": list(range(len(layouts())))}
+    split = {"layout": list(range(len(layouts()))), "frame_order": ["as_declared", "reversed"]}
 
     def setup(self, I):
         import polars as pl
@@ -165,8 +165,10 @@ class PolarsAddMissingColumns(Contract):
         present = {k: ("frame-type-of", k) for k in decl if k not in absent and not (k == "k_opt" and opt == "absent")}
         if extra:
             present["x"] = ("frame-type-of", "x")
+        if self.fixed.get("frame_order", "as_declared") == "reversed":
+            present = dict(reversed(list(present.items())))
         frame = TypedFrame(present)
-        core.register_model_var("layout", lambda m, d=(list(decl), list(absent), extra, opt): f"declared={d[0]} absent_required={d[1]} undeclared_extra_column={d[2]} optional_column={d[3]}")
+        core.register_model_var("layout", lambda m, d=(list(decl), list(absent), extra, opt, list(present)): f"declared={d[0]} absent_required={d[1]} undeclared_extra_column={d[2]} optional_column={d[3]} frame_columns={d[4]}")
         cur().ghost.update(meta=meta, decl=decl, absent=absent, amc=amc, frame=frame)
         return {"self": T.Ref(B).fresh("self"), "check_obj": frame, "schema": schema, "column_info": info}
 
@@ -192,6 +194,8 @@ class PolarsAddMissingColumns(Contract):
             out[f"no_existing_column_is_lost[{k}]"] = k in result.cols
             out[f"existing_columns_keep_their_dtype[{k}]"] = result.cols.get(k) == t
         out["nothing_else_is_added"] = set(result.cols) <= set(g["frame"].cols) | set(g["absent"])
+        # C08 ("returns the same parsed table"): the pandas twin is "careful not to modify order of existing dataframe columns"
+        out["existing_columns_keep_their_order"] = [k for k in result.cols if k in g["frame"].cols] == list(g["frame"].cols)
         out["a_text_default_is_a_value_not_a_column_reference"] = not cur().ghost.get("copied_from_column")
         return out
 
